@@ -126,6 +126,16 @@ ASSUME \A ms \in ReadMsizes : \A c \in Counts(ms) :
           LET n == IF c = Huge THEN MaxData(ms) ELSE Min(c, MaxData(ms)) IN
           n >= 0 => FrameOK(ms, Header + 4 + n)
 
+\* A directory reply carries whole entries only: qid[13] offset[8] type[1] name[s]; their total is
+\* within the requested count (C01) and the frame within msize (C13).  Swept over 72 consecutive
+\* msize values with an unbounded count, and over 150 consecutive counts, so that every position of
+\* the cut relative to an entry boundary occurs; name lengths cycle through DirNameLens.
+DirNameLens == <<1, 2, 9, 3, 255, 1, 17, 40>>
+DirentSize(len) == 13 + 8 + 1 + 2 + len
+DirLimit(ms, count) == IF count = Huge \/ count > ms - (Header + 4) THEN ms - (Header + 4) ELSE count
+DirFitCases == {<<ms, Huge>> : ms \in 2048..2119} \cup {<<8192, c>> : c \in 0..150} \cup {<<ms, ms - 11>> : ms \in 700..760}
+ASSUME \A i \in 1..Len(DirNameLens) : DirentSize(DirNameLens[i]) = 24 + DirNameLens[i]
+
 SizeCases == {<<ms, c, k, r>> : ms \in ReadMsizes, c \in UNION {Counts(m) : m \in ReadMsizes}, k \in {"read", "readdir"},
                                 r \in {"once", "smaller", "larger"}}
 \* "smaller"/"larger": the msize was first negotiated as 4*ms (capped) / ms \div 2 and then re-negotiated to ms
